@@ -20,7 +20,8 @@ EXPLANATION = (
     "one render() hands to the same child under that valuation (branch tests decided by the valuation, definitions followed on the CFG, helper methods inlined, arithmetic canonicalised); "
     "Pile and Columns must hand child k the k-th element of the shared size helper's third result, with the same index as the child receiver; (3) offset inverse pairing: the translation "
     "subtracted from (col,row) before mouse_event / move_cursor_to_coords are forwarded equals the one added to the child's cursor in get_cursor_coords, per child and axis; "
-    "(4) every get_cursor_coords implementation tests the child's answer against None before unpacking it."
+    "(4) every get_cursor_coords implementation tests the child's answer against None before unpacking it; (5) every GridFlow entry point rebuilds the memoised display widget for "
+    "the size it was asked about before delegating to it."
 )
 NOT_DECIDED = (
     "Agreement with the rendered canvas cursor (needs canvas semantics), loops of Pile/Columns/ListBox that accumulate offsets (equivalence of different loop shapes is not syntactic), "
@@ -351,6 +352,30 @@ def rule_none_guard(ctx: Ctx) -> RuleResult:
     return rr
 
 
+def rule_display_refresh(ctx: Ctx) -> RuleResult:
+    """GridFlow answers every geometry question from a display widget (Pile of Columns) memoised per
+    width; each entry point must rebuild it for the size it was asked about before delegating."""
+    from ..rules.util import cfg_of, nodes_where
+
+    p = ctx.p
+    rr = RuleResult("MEMO", "C09.5", "every GridFlow entry point rebuilds the memoised display widget for the given size before delegating to it", floor=7)
+    cls = p.cls("urwid.widget.grid_flow.GridFlow")
+    if "get_display_widget" not in cls.methods:
+        raise AnalysisError("GridFlow.get_display_widget not found")
+    for fi in p.all_class_functions(cls):
+        sup = [c for c in fi.own_nodes() if isinstance(c, ast.Call) and isinstance(c.func, ast.Attribute) and isinstance(c.func.value, ast.Call) and isinstance(c.func.value.func, ast.Name) and c.func.value.func.id == "super" and c.func.attr == fi.name and c.args and isinstance(c.args[0], ast.Name) and c.args[0].id == "size"]
+        if not sup or fi.name == "pack":
+            continue
+        cfg = cfg_of(fi)
+        refresh = nodes_where(cfg, lambda x: isinstance(x, ast.Call) and ast.unparse(x.func) == "self.get_display_widget" and x.args and isinstance(x.args[0], ast.Name) and x.args[0].id == "size")
+        for c in sup:
+            rr.inst(f"{short(fi)}:{norm(c, 50)}", True, {"function": short(fi), "delegation": norm(c, 60), "refresh_calls": len(refresh)} if len(rr.samples) < 4 else None)
+            cn = nodes_where(cfg, lambda x, c=c: x is c)
+            if not refresh or not all(cfg.dominated(n, refresh) for n in cn):
+                rr.add(finding("MEMO", fi, c, f"{fi.name}() delegates to the memoised display widget without first calling self.get_display_widget(size): after a width change or a programmatic focus change it answers for the previous layout", construct=f"{fi.name} delegates without refresh"))
+    return rr
+
+
 def run(ctx: Ctx):
     p = ctx.p
     return [
@@ -358,6 +383,7 @@ def run(ctx: Ctx):
         rule_size_agreement(ctx),
         rule_offsets(ctx),
         rule_none_guard(ctx),
+        rule_display_refresh(ctx),
     ]
 
 
@@ -384,6 +410,7 @@ MUTANTS = [
     Mut("columns-cursor-own-size", _COL, "Columns.get_cursor_coords", "w.get_cursor_coords(size_args[self.focus_position])", "w.get_cursor_coords(size)", "GEOM|widget.columns.Columns.get_cursor_coords"),
     Mut("boxadapter-cursor-size", _BOX, "BoxAdapter.get_cursor_coords", "return self._original_widget.get_cursor_coords((maxcol, self.height))", "return self._original_widget.get_cursor_coords((maxcol,))", "GEOM|widget.box_adapter.BoxAdapter.get_cursor_coords"),
     Mut("padding-cursor-none-unguarded", _PAD, "Padding.get_cursor_coords", "if (coords := self._original_widget.get_cursor_coords(maxvals)) is not None:\n            x, y = coords\n            return x + left, y\n\n        return None", "coords = self._original_widget.get_cursor_coords(maxvals)\n        x, y = coords\n        return x + left, y", "GUARD|widget.padding.Padding.get_cursor_coords"),
+    Mut("gridflow-cursor-stale-layout", "urwid/widget/grid_flow.py", "GridFlow.get_cursor_coords", "        self.get_display_widget(size)\n        return super().get_cursor_coords(size)", "        return super().get_cursor_coords(size)", "MEMO|widget.grid_flow.GridFlow.get_cursor_coords"),
     Mut("twin-filler-regrouped", _FIL, "Filler.mouse_event", "return self._original_widget.mouse_event((maxcol, maxrow - top - bottom), event", "return self._original_widget.mouse_event((maxcol, maxrow - (top + bottom)), event", twin=True),
     Mut("twin-filler-local-height", _FIL, "Filler.keypress", "return self._original_widget.keypress((maxcol, maxrow - top - bottom), key)", "inner_rows = maxrow - bottom - top\n        return self._original_widget.keypress((maxcol, inner_rows), key)", twin=True),
     Mut("twin-frame-cursor-order", _FRM, "Frame.get_cursor_coords", "coords = self.body.get_cursor_coords((maxcol, maxrow - hrows - frows))", "coords = self.body.get_cursor_coords((maxcol, maxrow - frows - hrows))", twin=True),
